@@ -137,7 +137,7 @@ def stream_traffic(p, a, b):
 def u_tcp(p):
     rng = p.rng
     v = rng.choice(["pair", "pair", "pair", "pending-connect", "pending-connect-raw", "unaccepted", "fresh",
-                    "listening", "close-in-connect-cb", "connect-refused"])
+                    "listening", "close-in-connect-cb", "connect-refused", "delayed-error"])
     if v == "fresh":
         p.init("T")
         return
@@ -159,6 +159,15 @@ def u_tcp(p):
         return
     cli = p.init("T")
     r = p.req()
+    if v == "delayed-error":
+        # bind to a port in use: uv_tcp_connect defers EADDRINUSE to the next tick
+        p.add("K%d,%d,%d" % (cli, srv, r))
+        p.hooks.append("Q%d" % r)
+        if rng.random() < 0.5:
+            r2 = p.req()
+            p.add("w%d,%d,8" % (cli, r2))
+            p.hooks.append("Q%d" % r2)
+        return
     if v == "connect-refused":
         # the listener is gone: the connect fails in the loop and cancels the writes queued behind it
         p.add("C%d" % srv, "R2", "k%d,%d,%d" % (cli, srv, r))
@@ -193,7 +202,7 @@ def u_tcp(p):
 def u_pipe(p):
     rng = p.rng
     v = rng.choice(["pair", "pair", "pair", "listen", "listen+connect", "listen+pending", "fresh", "connect-enoent",
-                    "longname", "longname", "rw-event", "rw-event"])
+                    "longname", "longname", "rw-event", "rw-event", "connect-no-socket", "connect-no-socket"])
     if v == "fresh":
         p.init("P")
         return
@@ -202,6 +211,14 @@ def u_pipe(p):
         b = p.init("P")
         p.add("O%d,%d" % (a, b))
         stream_traffic(p, a, b)
+        return
+    if v == "connect-no-socket":
+        # uv_pipe_connect fails before a socket exists (empty name / socket() = EMFILE): the watcher without
+        # descriptor waits on the pending queue for the deferred callback; closed in the same tick or later
+        h = p.init("P")
+        r = p.req()
+        p.add("m%d,%d,%d" % (h, r, rng.choice([0, 1])))
+        p.hooks.append("Q%d" % r)
         return
     if v == "longname":
         # names around sizeof(sun_path) = 108: what uv__pipe_close unlinks must be what was bound
@@ -306,13 +323,22 @@ def u_udp(p):
 
 def u_signal(p):
     rng = p.rng
-    v = rng.choice(["raised", "requeue", "requeue", "two", "requeue-two"])
+    v = rng.choice(["raised", "requeue", "requeue", "two", "requeue-two", "requeue-restart", "requeue-restart"])
     n = rng.choice([1, 2])
     h = p.init("g")
     p.add("s%d,%d" % (h, n))
     p.hooks.append("H%d" % h)
     if v == "raised":
         p.add("G%d" % n)
+    elif v == "requeue-restart":
+        # caught, then stop + start on the other signal, then close: the message in the pipe still points
+        # at the handle, close_cb has to wait for its dispatch
+        c = p.init("c")
+        p.add("s%d" % c)
+        other = 3 - n
+        p.on("H%d" % c, "G%d" % n, "t%d" % h, "s%d,%d" % (h, other), *( ["G%d" % other] if rng.random() < 0.5 else []),
+             "C%d" % h)
+        p.hooks.append("H%d" % c)
     elif v in ("requeue", "requeue-two"):
         c = p.init("c")
         p.add("s%d" % c)
@@ -446,7 +472,7 @@ def liveness_traces(chk, lib, thorough=False, n=None):
     the C02 trace (see module docstring)."""
     flavour = "asan" if "lib_asan" in lib else ("ndebug" if "lib_ndebug" in lib else "debug")
     exe = vf.cc_harness(chk.scratch, "c02_life_obs_" + flavour, ["c02_life.c"], lib=lib, flavour=flavour,
-                        wraps=["write", "writev", "sendmsg", "sendmmsg"])
+                        wraps=["write", "writev", "sendmsg", "sendmmsg", "socket"])
     env = dict(os.environ)
     env["C02_SCRATCH"] = chk.scratch.dir
     env["C02_OBS"] = "1"
@@ -729,7 +755,7 @@ def main():
     try:
         lib = vf.build_libuv(chk.scratch, "asan")
         life = vf.cc_harness(chk.scratch, "c02_life", ["c02_life.c"], lib=lib, flavour="asan",
-                             wraps=["write", "writev", "sendmsg", "sendmmsg"])
+                             wraps=["write", "writev", "sendmsg", "sendmmsg", "socket"])
         # harness/loopcore.c breaks an endless poll by returning 0 from epoll_pwait(-1), which the
         # assert in uv__io_poll rejects: same sanitizers, asserts off, for this harness only
         class Sub:
